@@ -5,6 +5,7 @@ import (
 	"context"
 	"encoding/binary"
 	"encoding/hex"
+	"fmt"
 	"reflect"
 	"runtime"
 	"sort"
@@ -770,3 +771,63 @@ var tgChunkInfoPyramidClient = register(&target{
 })
 
 func TestC37_ChunkInfoPyramidClient(t *testing.T) { check(t, tgChunkInfoPyramidClient, 200) }
+
+// ---- chunkinforesp sessions: several responses about one file from one peer, each on its own
+// stream, delivered to the SAME service instance (state created by one message is used by the next)
+
+var tgChunkInfoRespSession = register(&target{
+	name:    "chunkinfo-resp-session",
+	inTypes: ciRespTypes,
+	gen: func(t *rapid.T) kase {
+		var c kase
+		ciKnobs(t, &c)
+		// no pending find: with one, a second response blocks the handler for ever on the find's
+		// one-slot result channel (a handler-goroutine leak, not a crash: outside this property, and it
+		// would wedge the harness)
+		if c.K != nil {
+			c.K["finding"] = 0
+		}
+		n := rapid.IntRange(2, 4).Draw(t, "messages")
+		mk := func(i int) []byte {
+			over := peerID.overlay
+			if rapid.IntRange(0, 4).Draw(t, fmt.Sprintf("other%d", i)) == 0 {
+				over = otherID.overlay
+			}
+			// vector lengths around what the file needs: shorter, exact, longer
+			vec := rapid.SliceOfN(rapid.Byte(), 0, 5).Draw(t, fmt.Sprintf("vec%d", i))
+			return pstub.Frame(mustMarshal(&cipb.ChunkInfoResp{RootCid: fileRoot.Bytes(), Target: over.Bytes(), Req: nodeID.overlay.Bytes(),
+				Presence: map[string][]byte{over.String(): vec}}))
+		}
+		c.In = mk(0)
+		for i := 1; i < n; i++ {
+			c.Replies = append(c.Replies, mk(i))
+		}
+		c.Gen = "framed"
+		return c
+	},
+	run: func(c *kase) []string {
+		e := newChunkInfo(c)
+		ctx, cancel := bg()
+		defer cancel()
+		g0 := runtime.NumGoroutine()
+		cls := []string{"session"}
+		for i, in := range append([][]byte{c.In}, c.Replies...) {
+			st := pstub.NewByteStream(in)
+			if err := handlerOf(e.ci.Protocol(), "chunkinforesp")(ctx, peerOf(peerID), st); err != nil {
+				cls = append(cls, "err")
+			}
+			settle(g0, 150*time.Millisecond)
+			_ = i
+		}
+		if len(e.ci.GetChunkInfoDiscoverOverlays(fileRoot)) > 0 {
+			cls = append(cls, "discover-entry-created")
+		}
+		e.use(rootsNamedIn(c.In, ciRespTypes)...)
+		e.cancel()
+		settle(g0, 2*time.Second)
+		return cls
+	},
+	nt: func(c *kase) bool { return len(c.Replies) > 0 },
+})
+
+func TestC37_ChunkInfoRespSession(t *testing.T) { check(t, tgChunkInfoRespSession, 200) }
